@@ -1,6 +1,5 @@
 (* Single entry point of the executable models: function id + argument tree -> result tree. *)
 From PV Require Export Model.ComponentsX Model.EnginesX Model.SelectX Model.SimulatorX.
-From PV Require Export Model.ComponentsX Model.EnginesX Model.SelectX.
 From PV Require Model.ConnectorX.  (* C10; qualified *)
 From PV Require Model.RemoteJob.   (* not exported: its short names (step, run, status, ...) stay qualified *)
 From PV Require Export Model.LocalJobX.
@@ -9,7 +8,7 @@ From PV Require Export Model.CodecX.
 From PV Require Export Model.PayloadX.
 From PV Require Export Model.JobGroupX.
 From PV Require Export Model.TransformX.
-From PV Require Export Model.ComponentsX Model.EnginesX Model.DecompX.
+From PV Require Export Model.DecompX.
 
 Definition dispatch (f : Z) (x : sx) : sx :=
   match f with
